@@ -39,6 +39,7 @@ type verifSBConfig struct {
 	MaxTrieLevelInMem uint
 	SnapshotDBType    string // "MemoryDB" or "LvlDB"
 	SnapshotPath      string // directory for LevelDB snapshots
+	SnapshotBatchSecs int    // BatchDelaySeconds of the snapshot databases
 	MaxSnapshots      uint32
 	CheckpointMaxSize uint64 // checkpoint hashes holder capacity in bytes (small => Commit forces checkpoints)
 }
@@ -74,7 +75,7 @@ func verifSBNewFixture(cfg verifSBConfig) (*verifSBFixture, error) {
 		SnapshotDbConfig: config.DBConfig{
 			Type:              cfg.SnapshotDBType,
 			FilePath:          cfg.SnapshotPath,
-			BatchDelaySeconds: 0,
+			BatchDelaySeconds: cfg.SnapshotBatchSecs,
 			MaxBatchSize:      100,
 			MaxOpenFiles:      10,
 		},
